@@ -11,7 +11,7 @@ workload builder assigned (repeated labels: by order of occurrence).
 """
 import numpy as np
 
-from .. import gen, zoo
+from .. import gen
 from . import c04_common as cc
 
 LEVEL = "exploration"
